@@ -477,6 +477,21 @@ fn tree_bytes(root: &Path) -> BTreeMap<String, Vec<u8>> {
     out
 }
 
+/// Give every entry below `root` (and `root` itself) the same fixed mtime, so that two replays see identical metadata.
+fn pin_times(root: &Path, secs: i64) {
+    let t = filetime::FileTime::from_unix_time(secs, 0);
+    let mut stack = vec![root.to_path_buf()];
+    while let Some(d) = stack.pop() {
+        if let Ok(rd) = std::fs::read_dir(&d) {
+            for e in rd.flatten() {
+                if e.path().is_dir() { stack.push(e.path()); }
+                let _ = filetime::set_file_mtime(e.path(), t);
+            }
+        }
+        let _ = filetime::set_file_mtime(&d, t);
+    }
+}
+
 fn determinism_replay() -> Result<Option<Value>, String> {
     let tmp = tempfile::tempdir().map_err(|e| format!("setup failed at line {}: {e:?}", line!()))?;
     let src = tmp.path().join("src");
@@ -488,6 +503,7 @@ fn determinism_replay() -> Result<Option<Value>, String> {
                 if round == 1 {
                     std::fs::write(src.join("b"), b"changed in round two").map_err(|e| format!("setup failed at line {}: {e:?}", line!()))?;
                 }
+                pin_times(&src, 1_600_000_000 + 100 * round as i64);
                 let mut opts = BackupOptions { max_entries_per_hunk: 1000, ..BackupOptions::default() };
                 if slow && round == 0 {
                     let stalled = std::sync::atomic::AtomicBool::new(false);
